@@ -563,24 +563,170 @@ Proof.
   destruct (IH (S k) e H) as [i Hi]. exists i. right. assumption.
 Qed.
 
-Lemma tie_free_index : forall (l : list edge) k i j e e',
-  tie_free l ->
-  In (i, e) (combine (seq k (length l)) l) -> In (j, e') (combine (seq k (length l)) l) ->
-  (e_p e == e_p e')%Q -> i = j /\ e = e'.
+(* ------------------------------------------------------------------ rank orders (the ORDER BY of the windows) *)
+Record rank_order (le : rank_le) : Prop := {
+  ro_total : forall e e', le e e' = true \/ le e' e = true;
+  ro_trans : forall e1 e2 e3, le e1 e2 = true -> le e2 e3 = true -> le e1 e3 = true;
+  ro_flip_l : forall e e', le (flip e) e' = le e e';
+  ro_flip_r : forall e e', le e (flip e') = le e e' }.
+
+(* the same edge up to orientation *)
+Definition req (e e' : edge) : Prop := e' = e \/ e' = flip e.
+
+Lemma le_req : forall le, rank_order le -> forall e e' e1 e2, req e e1 -> req e' e2 -> le e1 e2 = le e e'.
 Proof.
-  induction l as [|a l IH]; intros k i j e e' Htf Hi Hj Hp; [contradiction|].
+  intros le Ho e e' e1 e2 [->| ->] [->| ->]; try reflexivity.
+  - apply ro_flip_r; assumption.
+  - apply ro_flip_l; assumption.
+  - rewrite (ro_flip_l le Ho), (ro_flip_r le Ho). reflexivity.
+Qed.
+
+Lemma strict_index : forall le (l : list edge) k i j e e',
+  strict_rank le l ->
+  In (i, e) (combine (seq k (length l)) l) -> In (j, e') (combine (seq k (length l)) l) ->
+  le e e' = true -> le e' e = true -> i = j /\ e = e'.
+Proof.
+  intros le. induction l as [|a l IH]; intros k i j e e' Htf Hi Hj H1 H2; [contradiction|].
   inversion Htf as [|? ? Hfa Htf']; subst. cbn [length seq combine] in Hi, Hj.
   destruct Hi as [Hi|Hi], Hj as [Hj|Hj].
   - inversion Hi; inversion Hj; subst. auto.
   - exfalso. inversion Hi; subst. apply indexed_bounds in Hj. destruct Hj as [_ Hj].
-    rewrite Forall_forall in Hfa. exact (Hfa e' Hj Hp).
+    rewrite Forall_forall in Hfa. apply (Hfa e' Hj). auto.
   - exfalso. inversion Hj; subst. apply indexed_bounds in Hi. destruct Hi as [_ Hi].
-    rewrite Forall_forall in Hfa. apply (Hfa e Hi). symmetry. exact Hp.
+    rewrite Forall_forall in Hfa. apply (Hfa e Hi). auto.
   - apply (IH (S k)); assumption.
 Qed.
 
-(* ------------------------------------------------------------------ tie-free: maximality *)
-Section TieFree.
+Lemma fop_impl : forall (A : Type) (R R' : A -> A -> Prop) l,
+  (forall a b, R a b -> R' a b) -> ForallOrdPairs R l -> ForallOrdPairs R' l.
+Proof.
+  intros A R R' l H Hf. induction Hf; constructor; [|assumption].
+  rewrite Forall_forall in *. auto.
+Qed.
+
+(* order by match_probability desc *)
+Lemma le_prob_order : rank_order le_prob.
+Proof.
+  split; unfold le_prob.
+  - intros e e'. destruct (Qlt_le_dec (e_p e') (e_p e)) as [H|H].
+    + right. apply Qle_bool_iff. apply Qlt_le_weak. assumption.
+    + left. apply Qle_bool_iff. assumption.
+  - intros e1 e2 e3 H1 H2. apply Qle_bool_iff in H1, H2. apply Qle_bool_iff. eapply Qle_trans; eassumption.
+  - reflexivity.
+  - reflexivity.
+Qed.
+
+Lemma tie_free_strict : forall E, tie_free E -> strict_rank le_prob E.
+Proof.
+  intros E. apply fop_impl. intros a b Hne [H1 H2]. unfold le_prob in *.
+  apply Qle_bool_iff in H1, H2. apply Hne. apply Qle_antisym; assumption.
+Qed.
+
+Lemma rank1_ok_prob : forall ch, rank1_ok ch -> rank1_ok_for le_prob ch.
+Proof.
+  intros ch H it k rows Hne. destruct (H it k rows Hne) as [Hin Hmax]. split; [assumption|].
+  intros r Hr. unfold le_prob, row_edge, e_p. cbn [snd]. apply Qle_bool_iff. apply Hmax. assumption.
+Qed.
+
+(* order by match_probability desc, least(node_id, neighbour), greatest(node_id, neighbour) *)
+Lemma e_p_flip : forall e, e_p (flip e) = e_p e. Proof. reflexivity. Qed.
+Lemma e_lo_flip : forall e, e_lo (flip e) = e_lo e.
+Proof. intros. unfold e_lo, flip, e_l, e_r. cbn [fst snd]. apply Z.min_comm. Qed.
+Lemma e_hi_flip : forall e, e_hi (flip e) = e_hi e.
+Proof. intros. unfold e_hi, flip, e_l, e_r. cbn [fst snd]. apply Z.max_comm. Qed.
+
+Lemma le_tiebreak_char : forall e1 e2,
+  le_tiebreak e1 e2 = true <->
+  (e_p e1 < e_p e2)%Q \/
+  ((e_p e1 == e_p e2)%Q /\ (e_lo e2 < e_lo e1 \/ (e_lo e2 = e_lo e1 /\ e_hi e2 <= e_hi e1))).
+Proof.
+  intros e1 e2. unfold le_tiebreak. destruct (Qeq_bool (e_p e1) (e_p e2)) eqn:Eq.
+  - apply Qeq_bool_iff in Eq. rewrite orb_true_iff, andb_true_iff, Z.ltb_lt, Z.eqb_eq, Z.leb_le. split.
+    + intros H. right. split; assumption.
+    + intros [H|[_ H]]; [|assumption]. exfalso. rewrite Eq in H. exact (Qlt_irrefl _ H).
+  - assert (Hne : ~ (e_p e1 == e_p e2)%Q) by (intro H; apply Qeq_bool_iff in H; congruence).
+    rewrite Qle_bool_iff. split.
+    + intros H. left. apply Qle_lteq in H. destruct H; [assumption|contradiction].
+    + intros [H|[H _]]; [apply Qlt_le_weak; assumption|contradiction].
+Qed.
+
+Lemma le_tiebreak_order : rank_order le_tiebreak.
+Proof.
+  split.
+  - intros e e'. rewrite !le_tiebreak_char.
+    destruct (Q_dec (e_p e) (e_p e')) as [[H|H]|H]; [left; left; assumption|right; left; assumption|].
+    destruct (Z_lt_le_dec (e_lo e') (e_lo e)) as [Hl|Hl]; [left; right; split; [assumption|left; assumption]|].
+    destruct (Z_lt_le_dec (e_lo e) (e_lo e')) as [Hl'|Hl']; [right; right; split; [symmetry; assumption|left; assumption]|].
+    destruct (Z_le_gt_dec (e_hi e') (e_hi e)) as [Hh|Hh].
+    + left. right. split; [assumption|]. right. lia.
+    + right. right. split; [symmetry; assumption|]. right. lia.
+  - intros e1 e2 e3. rewrite !le_tiebreak_char. intros [H1|[H1 K1]] [H2|[H2 K2]].
+    + left. eapply Qlt_trans; eassumption.
+    + left. rewrite <- H2. assumption.
+    + left. rewrite H1. assumption.
+    + right. split; [rewrite H1; assumption|lia].
+  - intros e e'. unfold le_tiebreak. rewrite e_p_flip, e_lo_flip, e_hi_flip. reflexivity.
+  - intros e e'. unfold le_tiebreak. rewrite e_p_flip, e_lo_flip, e_hi_flip. reflexivity.
+Qed.
+
+Lemma nodup_pairs_strict : forall E, nodup_pairs E -> strict_rank le_tiebreak E.
+Proof.
+  intros E. apply fop_impl. intros a b Hne [H1 H2]. apply le_tiebreak_char in H1, H2. apply Hne.
+  destruct H1 as [H1|[H1 K1]], H2 as [H2|[H2 K2]].
+  - exfalso. apply (Qlt_irrefl (e_p a)). eapply Qlt_trans; eassumption.
+  - exfalso. rewrite H2 in H1. exact (Qlt_irrefl _ H1).
+  - exfalso. rewrite H1 in H2. exact (Qlt_irrefl _ H2).
+  - split; [assumption|lia].
+Qed.
+
+Lemma le_tiebreak_refines_prob : forall ch, rank1_ok_for le_tiebreak ch -> rank1_ok ch.
+Proof.
+  intros ch H it k rows Hne. destruct (H it k rows Hne) as [Hin Hmax]. split; [assumption|].
+  intros r Hr. specialize (Hmax r Hr). apply le_tiebreak_char in Hmax. unfold row_edge, e_p in Hmax. cbn [snd] in Hmax.
+  destruct Hmax as [Hlt|[Heq _]]; [apply Qlt_le_weak; assumption|rewrite Heq; apply Qle_refl].
+Qed.
+
+Lemma argmax_le_spec : forall le, rank_order le -> forall rows best,
+  In (argmax_le le best rows) (best :: rows) /\
+  forall r, In r (best :: rows) -> le (row_edge r) (row_edge (argmax_le le best rows)) = true.
+Proof.
+  intros le Ho. induction rows as [|x t IH]; intros best; cbn [argmax_le].
+  - split; [left; reflexivity|]. intros r [<-|[]]. destruct (ro_total le Ho (row_edge best) (row_edge best)); assumption.
+  - destruct (le (row_edge x) (row_edge best)) eqn:El.
+    + destruct (IH best) as [Hin Hmax]. split; [cbn [In] in *; tauto|].
+      intros r [<-|[<-|Hr']].
+      * apply Hmax. left. reflexivity.
+      * apply (ro_trans le Ho) with (row_edge best); [assumption|apply Hmax; left; reflexivity].
+      * apply Hmax. right. assumption.
+    + destruct (IH x) as [Hin Hmax]. split; [cbn [In] in *; tauto|].
+      assert (Hbx : le (row_edge best) (row_edge x) = true).
+      { destruct (ro_total le Ho (row_edge best) (row_edge x)); [assumption|congruence]. }
+      intros r [<-|[<-|Hr']].
+      * apply (ro_trans le Ho) with (row_edge x); [assumption|apply Hmax; left; reflexivity].
+      * apply Hmax. left. reflexivity.
+      * apply Hmax. right. assumption.
+Qed.
+
+Lemma max_by_ok : forall le, rank_order le -> rank1_ok_for le (max_by le).
+Proof.
+  intros le Ho it k rows Hne. unfold max_by. destruct rows as [|r t]; [congruence|]. apply argmax_le_spec. assumption.
+Qed.
+
+Lemma indexed_fun : forall (l : list edge) k i e e',
+  In (i, e) (combine (seq k (length l)) l) -> In (i, e') (combine (seq k (length l)) l) -> e = e'.
+Proof.
+  induction l as [|a l IH]; intros k i e e' H1 H2; [contradiction|]. cbn [length seq combine] in H1, H2.
+  destruct H1 as [H1|H1], H2 as [H2|H2].
+  - congruence.
+  - inversion H1; subst. apply indexed_bounds in H2. lia.
+  - inversion H2; subst. apply indexed_bounds in H1. lia.
+  - apply (IH (S k) i); assumption.
+Qed.
+
+(* ------------------------------------------------------------------ strictly ranked input: maximality *)
+Section Ranked.
+  Variable le : rank_le.
+  Hypothesis Hord : rank_order le.
   Variable dfs : list Z.
   Variable thr : option Q.
   Variable E : list edge.
@@ -588,9 +734,9 @@ Section TieFree.
   Variable it : nat.
   Variable prev : list reprow.
   Hypothesis Hnd : NoDup (map rr_node prev).
-  Hypothesis Htf : tie_free E.
-  Hypothesis Hl : rank1_ok chl.
-  Hypothesis Hr : rank1_ok chr.
+  Hypothesis Htf : strict_rank le E.
+  Hypothesis Hl : rank1_ok_for le chl.
+  Hypothesis Hr : rank1_ok_for le chr.
 
   Let nbs := df_neighbours thr E.
   Let rows := candidates dfs nbs prev.
@@ -615,6 +761,14 @@ Section TieFree.
     - split; [reflexivity|]. split; [assumption|]. split; [assumption|]. right. auto.
   Qed.
 
+  Lemma cand_req : forall a i e, c_p a = e_p e ->
+    ((c_rid a = (i, false) /\ c_node a = e_l e /\ c_nb a = e_r e) \/
+     (c_rid a = (i, true) /\ c_node a = e_r e /\ c_nb a = e_l e)) -> req e (row_edge a).
+  Proof.
+    intros a i [[l r] p] Hp [(_ & H1 & H2)|(_ & H1 & H2)]; unfold req, row_edge, flip, e_l, e_r, e_p in *;
+      cbn [fst snd] in *; [left|right]; congruence.
+  Qed.
+
   Lemma same_row_intro : forall a b,
     c_rid a = c_rid b -> c_node a = c_node b -> c_nb a = c_nb b -> (c_p a == c_p b)%Q -> same_row a b = true.
   Proof.
@@ -623,12 +777,15 @@ Section TieFree.
   Qed.
 
   Lemma tie_same_row : forall a b, In a rows -> In b rows ->
-    (c_lrep a = c_lrep b \/ c_rrep a = c_rrep b) -> (c_p a == c_p b)%Q -> same_row a b = true.
+    (c_lrep a = c_lrep b \/ c_rrep a = c_rrep b) ->
+    le (row_edge a) (row_edge b) = true -> le (row_edge b) (row_edge a) = true -> same_row a b = true.
   Proof.
-    intros a b Ha Hb Hpart Hp.
+    intros a b Ha Hb Hpart H1 H2.
     destruct (cand_prov a Ha) as (i & e & rl & rr & Hie & _ & Hrl & Hrr & Hla & Hra & Hne & _ & Hpa & Hna & Hba & Hda).
     destruct (cand_prov b Hb) as (j & e' & rl' & rr' & Hje & _ & Hrl' & Hrr' & Hlb & Hrb & Hne' & _ & Hpb & Hnb & Hbb & Hdb).
-    rewrite Hpa, Hpb in Hp. destruct (tie_free_index E 0 i j e e' Htf Hie Hje Hp) as [<- <-].
+    pose proof (cand_req a i e Hpa Hda) as Hqa. pose proof (cand_req b j e' Hpb Hdb) as Hqb.
+    rewrite (le_req le Hord e e' _ _ Hqa Hqb) in H1. rewrite (le_req le Hord e' e _ _ Hqb Hqa) in H2.
+    destruct (strict_index le E 0 i j e e' Htf Hie Hje H1 H2) as [<- <-].
     destruct Hda as [(Hra1 & Hn1 & Hb1)|(Hra1 & Hn1 & Hb1)], Hdb as [(Hrb1 & Hn2 & Hb2)|(Hrb1 & Hn2 & Hb2)].
     - apply same_row_intro; first [congruence | (rewrite Hpa, Hpb; reflexivity)].
     - exfalso.
@@ -643,7 +800,7 @@ Section TieFree.
   Qed.
 
   Lemma global_max_accepted : forall a, In a rows ->
-    (forall r, In r rows -> (c_p r <= c_p a)%Q) -> In a acc'.
+    (forall r, In r rows -> le (row_edge r) (row_edge a) = true) -> In a acc'.
   Proof.
     intros a Ha Hmax. unfold acc', df_neighbours_k. apply filter_In. split; [exact Ha|].
     apply andb_true_iff. split.
@@ -653,16 +810,14 @@ Section TieFree.
         rewrite H in Hin. exact Hin. }
       destruct (Hl it (c_lrep a) _ Hne) as [Hin Hge]. set (b := chl it (c_lrep a) (part_l rows (c_lrep a))) in *.
       apply filter_In in Hin. destruct Hin as [Hb Hbl]. apply Z.eqb_eq in Hbl.
-      apply tie_same_row; auto. apply Qle_antisym; [|apply Hmax; assumption].
-      apply Hge. apply filter_In. split; [assumption|apply Z.eqb_refl].
+      apply tie_same_row; auto. apply Hge. apply filter_In. split; [assumption|apply Z.eqb_refl].
     - unfold rank_r_is_1. fold nbs. fold rows.
       assert (Hne : part_r rows (c_rrep a) <> []).
       { intro H. assert (Hin : In a (part_r rows (c_rrep a))) by (apply filter_In; split; [assumption|apply Z.eqb_refl]).
         rewrite H in Hin. exact Hin. }
       destruct (Hr it (c_rrep a) _ Hne) as [Hin Hge]. set (b := chr it (c_rrep a) (part_r rows (c_rrep a))) in *.
       apply filter_In in Hin. destruct Hin as [Hb Hbl]. apply Z.eqb_eq in Hbl.
-      apply tie_same_row; auto. apply Qle_antisym; [|apply Hmax; assumption].
-      apply Hge. apply filter_In. split; [assumption|apply Z.eqb_refl].
+      apply tie_same_row; auto. apply Hge. apply filter_In. split; [assumption|apply Z.eqb_refl].
   Qed.
 
   Lemma no_shared_sym : forall c1 c2, no_shared dfs prev c1 c2 -> no_shared dfs prev c2 c1.
@@ -687,9 +842,15 @@ Section TieFree.
     split; [apply no_shared_sym; assumption|reflexivity].
   Qed.
 
-  Lemma exists_global_max : rows <> [] -> exists a, In a rows /\ forall r, In r rows -> (c_p r <= c_p a)%Q.
+  Lemma mirror_req : forall a a', c_node a' = c_nb a -> c_nb a' = c_node a -> c_p a' = c_p a ->
+    req (row_edge a) (row_edge a').
+  Proof. intros a a' H1 H2 H3. right. unfold row_edge, flip, e_l, e_r, e_p. cbn [fst snd]. congruence. Qed.
+
+  Lemma exists_global_max : rows <> [] ->
+    exists a, In a rows /\ forall r, In r rows -> le (row_edge r) (row_edge a) = true.
   Proof.
-    intros Hne. destruct (first_max_ok O 0 rows Hne) as [Hin Hmax]. exists (first_max O 0 rows). split; assumption.
+    intros Hne. destruct rows as [|r0 t] eqn:Er; [congruence|].
+    destruct (argmax_le_spec le Hord t r0) as [Hin Hmax]. exists (argmax_le le r0 t). split; assumption.
   Qed.
 
   (* a step that changes nothing had no candidate row *)
@@ -700,7 +861,9 @@ Section TieFree.
     assert (Hne : rows <> []) by (rewrite Erows; discriminate).
     destruct (exists_global_max Hne) as [a [Ha Hmax]].
     destruct (mirror_in a Ha) as (a' & Ha' & Hn' & Hb' & Hl' & Hr' & Hp').
-    assert (Hmax' : forall r, In r rows -> (c_p r <= c_p a')%Q) by (intros; rewrite Hp'; auto).
+    assert (Hmax' : forall r, In r rows -> le (row_edge r) (row_edge a') = true).
+    { intros r Hr0. rewrite (le_req le Hord (row_edge r) (row_edge a) (row_edge r) (row_edge a') (or_introl eq_refl) (mirror_req a a' Hn' Hb' Hp')).
+      auto. }
     pose proof (global_max_accepted a Ha Hmax) as Hacc.
     pose proof (global_max_accepted a' Ha' Hmax') as Hacc'.
     apply candidates_in in Ha. destruct Ha as (nb & rl & rr & _ & Hrl & Hrr & H1 & H2 & Hne' & _ & Heq).
@@ -713,7 +876,7 @@ Section TieFree.
       repeat split; auto; congruence. }
     lia.
   Qed.
-End TieFree.
+End Ranked.
 
 (* at exit the table is unchanged by the last step *)
 Lemma exit_fixpoint : forall dfs nbs chl chr it t,
@@ -737,18 +900,18 @@ Proof.
     unfold rr_node, rr_rep in Hx. cbn [fst snd] in Hx. symmetry. exact Hx.
 Qed.
 
-Lemma maximal_tiefree : forall dfs thr (chl chr : chooser) fuel nodes E out,
-  NoDup (map n_id nodes) -> tie_free E -> rank1_ok chl -> rank1_ok chr ->
+Lemma maximal_ranked : forall le, rank_order le -> forall dfs thr (chl chr : chooser) fuel nodes E out,
+  NoDup (map n_id nodes) -> strict_rank le E -> rank1_ok_for le chl -> rank1_ok_for le chr ->
   oto_loop dfs (df_neighbours thr E) chl chr fuel 1 (df_representatives nodes) = Some out ->
   forall v w, ~ admissible_cross dfs thr E out v w.
 Proof.
-  intros dfs thr chl chr fuel nodes E out Hnd Htf Hl Hr Hloop v w Hadm.
+  intros le Hord dfs thr chl chr fuel nodes E out Hnd Htf Hl Hr Hloop v w Hadm.
   destruct (loop_exit _ _ _ _ _ _ _ _ Hloop) as (it' & t' & Hout & Hc & k & Ht' & _).
   assert (Hinv : inv dfs (df_representatives nodes) t').
   { rewrite Ht'. apply inv_iter. apply inv_init. assumption. }
   destruct Hinv as (Hnd' & _ & _).
   destruct (exit_fixpoint _ _ _ _ _ _ Hnd' Hc) as [Hnc Hsame]. rewrite <- Hout in Hsame.
-  pose proof (no_change_no_candidates dfs thr E chl chr it' t' Hnd' Htf Hl Hr Hnc) as Hrows.
+  pose proof (no_change_no_candidates le Hord dfs thr E chl chr it' t' Hnd' Htf Hl Hr Hnc) as Hrows.
   destruct Hadm as [(e & He & Hab & Hends) (cv & cw & sv & sw & Hv & Hw & Hne & Hns)].
   apply Hsame in Hv, Hw.
   destruct (in_indexed E 0 e He) as [i Hi].
@@ -763,6 +926,15 @@ Proof.
     - eexists. apply candidates_in. exists (bwd i e), (v, cv, sv), (w, cw, sw).
       split; [apply nbs_in; exists i, e; auto|]. repeat (split; [first [assumption|reflexivity]|]). reflexivity. }
   destruct Hcand as [a Ha]. rewrite Hrows in Ha. exact Ha.
+Qed.
+
+Lemma maximal_tiefree : forall dfs thr (chl chr : chooser) fuel nodes E out,
+  NoDup (map n_id nodes) -> tie_free E -> rank1_ok chl -> rank1_ok chr ->
+  oto_loop dfs (df_neighbours thr E) chl chr fuel 1 (df_representatives nodes) = Some out ->
+  forall v w, ~ admissible_cross dfs thr E out v w.
+Proof.
+  intros dfs thr chl chr fuel nodes E out Hnd Htf Hl Hr.
+  apply (maximal_ranked le_prob le_prob_order); auto using tie_free_strict, rank1_ok_prob.
 Qed.
 
 (* ------------------------------------------------------------------ weak connectivity (all choosers) *)
